@@ -25,7 +25,7 @@ C = {
  'C17': ('serialize against a recording Serializer (serialize_tuple(N), N elements in order, end, nothing else); deserialize/visit_seq against a scripted Deserializer/SeqAccess with symbolic count, three symbolic size hints and error position: verdict, element order, every read element dropped once, no partial array', 'JSON/bincode round trips are the composition with the formats\' own tuple encoding (external, assumed); '),
  'C18': ('reduced claim: every const fn is free of pointer UB for all symbolic inputs per instantiation (the C02/C10/C01 contracts) and a generated family of const items is accepted by rustc\'s const evaluator and equals the same calls executed at run time under Kani', 'the const-item family is an enumeration (bounded), CTFE == run-time MIR semantics assumed; '),
  'C19': ('after zeroize() element i (symbolic i, symbolic prior contents) is zero for N in 0..=16 + 256/257 (thorough up to 1024) and five element types; const_default / DEFAULT (const item) / Default::default agree element-wise incl. nested arrays', 'zeroize::optimization_barrier (inline asm) stubbed as a no-op; '),
- 'C20': ('enumerated macro invocations (counts 0..8,12,33,64; thorough to 256) with side-effecting element expressions: length type, values in order, each expression evaluated once; repeat forms up to 1024, const position, trailing commas, empty list, non-Copy elements, box_arr! equal to arr!', 'rustc\'s macro matching and expansion are outside any contract language: engine K enumerates real invocations, engine V transcribes the arms mechanically (which arm matches, hygiene and the Const<k> table are not modelled) and proves the functions they call; '),
+ 'C20': ('enumerated macro invocations (counts 0..8,12,33,64; thorough to 256) with side-effecting element expressions: length type, values in order, each expression evaluated once; repeat forms up to 300 (thorough 512; a single 1024 harness needs 28 GB in CBMC - every N is in the Verus part), const position, trailing commas, empty list, non-Copy elements, box_arr! equal to arr!', 'rustc\'s macro matching and expansion are outside any contract language: engine K enumerates real invocations, engine V transcribes the arms mechanically (which arm matches, hygiene and the Const<k> table are not modelled) and proves the functions they call; '),
 }
 props = sorted(C)
 m = {
